@@ -16,6 +16,8 @@ MCBugInitEmpty == "BUG" \in DOMAIN IOEnv /\ IOEnv.BUG = "initempty"
 MCBugStaleInit == "BUG" \in DOMAIN IOEnv /\ IOEnv.BUG = "staleinit"
 MCBugRelinkDrop == "BUG" \in DOMAIN IOEnv /\ IOEnv.BUG = "relinkdrop"
 MCBugNoRepub == "BUG" \in DOMAIN IOEnv /\ IOEnv.BUG = "norepub"
+MCBugRelinkKeep == "BUG" \in DOMAIN IOEnv /\ IOEnv.BUG = "relinkkeep"
+MCBugHoldBreak == "BUG" \in DOMAIN IOEnv /\ IOEnv.BUG \in {"holdbreak", "holdbreakm"}
 MCBugStaleChan == "BUG" \in DOMAIN IOEnv /\ IOEnv.BUG = "stalechan"
 DirectedStale == NoStaleChan \/ (PrintT(<<"DHIST", ToJson([steps |-> hist])>>) /\ FALSE)
 =============================================================================
